@@ -28,13 +28,13 @@ B2N(b) == IF b THEN 1 ELSE 0
 K1 == 43
 K2 == NShards \div K1
 Outer(an, ns) == (Num(an) + 57 * Num(ns)) % K1
-Inner(c) == (Num(c.ar) + 57 * (c.opt + 4 * (c.optpos + 3 * (B2N(c.tc) + 2 * (B2N(c.compress) + 2 * (c.q + 4 * SelIdx(c.sel))))))) % K2
+Inner(c) == (Num(c.ar) + 57 * (c.opt + 4 * (c.optpos + 3 * (B2N(c.tc) + 2 * (B2N(c.compress) + 2 * (c.q + 5 * SelIdx(c.sel))))))) % K2
 
-\* q: question section 0 = one ordinary question, 1 = none, 2 = two questions, 3 = one question of about 180 octets
+\* q: question section 0 = one ordinary question, 1 = none, 2 = two questions, 3 = one question of 181 octets, 4 = one of 211 octets
 \* opt: 0 none, 1 bare, 2 with two options, 3 with a 300-octet padding option (with q = 3 header+question+OPT reach 512)
 Init == \E an \in Sec(MaxAn), ns \in Sec(MaxNs) :
           /\ Outer(an, ns) = (Shard % K1)
-          /\ \E ar \in Sec(MaxAr), opt \in 0..3, tc \in BOOLEAN, comp \in BOOLEAN, q \in 0..3 :
+          /\ \E ar \in Sec(MaxAr), opt \in 0..3, tc \in BOOLEAN, comp \in BOOLEAN, q \in 0..4 :
                \E optpos \in 0..(IF opt = 0 THEN 0 ELSE Len(ar)), sel \in Sel(Len(an) + Len(ns) + Len(ar)) :
                  /\ v = [an |-> an, ns |-> ns, ar |-> ar, opt |-> opt, optpos |-> optpos, tc |-> tc, compress |-> comp, q |-> q, sel |-> sel]
                  /\ Inner(v) = ((Shard \div K1) % K2)
